@@ -137,6 +137,15 @@ def execFmt (io : FloatIO) (ctx ve : Sexp) : String :=
            else match newFormat d.toList with
              | .error c => "reported " ++ codeStr c
              | .ok f => resStr (format io [(.any, .mk f none)] v))
+      | .list [.atom "new", d] =>
+        -- px.New(c, String, v, directive): newFormatContext3 with a String format = NewFormatContext(v.PType(), NewFormat(directive))
+        (match d.str? with
+         | none => "bad-op"
+         | some d =>
+           if v.isContainer then "out-of-model"   -- which children the value's own type accepts is a lattice question
+           else match newFormat d.toList with
+             | .error c => "reported " ++ codeStr c
+             | .ok f => resStr (format io [(.any, .mk f none)] v))
       | .list (.atom "map" :: es) =>
         (match mapOf es with
          | .bad => "bad-op"
